@@ -16,6 +16,8 @@ fn errno() -> i32 {
 static PAUSE_TARGET: AtomicU64 = AtomicU64::new(0); // pause the n-th submission (1-based), 0 = never
 static SUBMISSIONS: AtomicU64 = AtomicU64::new(0);
 static PAUSED: AtomicUsize = AtomicUsize::new(0);
+static STARVED: AtomicUsize = AtomicUsize::new(0);
+static TIMED_OUT_CALLS: AtomicUsize = AtomicUsize::new(0);
 
 fn pauser(point: &'static str, _token: u64) {
     if point != "uring:after_submit" {
@@ -35,17 +37,34 @@ fn pauser(point: &'static str, _token: u64) {
 }
 
 /// One caller's program: every op checks its own result; returns the list of problems found.
-fn caller(id: usize, ops: usize, seed: u64, dir: &str, log: &Mutex<Vec<String>>, done_ops: &AtomicUsize) {
+fn caller(id: usize, ops: usize, seed: u64, dir: &str, log: &Mutex<Vec<String>>, done_ops: &AtomicUsize, timeout_first: bool) {
     let mut rng = Rng::for_case(seed, id as u64);
     let path = format!("{dir}/f{id}\0");
     let fd = unsafe { libc::open(path.as_ptr().cast(), libc::O_RDWR | libc::O_CREAT | libc::O_TRUNC, 0o600) };
     let rofd = unsafe { libc::open(path.as_ptr().cast(), libc::O_RDONLY) };
     let mut sv = [0; 2];
     assert_eq!(0, unsafe { libc::socketpair(libc::AF_UNIX, libc::SOCK_STREAM, 0, sv.as_mut_ptr()) });
-    let problem = |s: String| log.lock().unwrap().push(format!("caller {id}: {s}"));
+    if timeout_first {
+        // a receive that runs into the socket's own 20 ms timeout; every later call of this caller must still get its own result
+        // on a socket pair of its own, never used again: the abandoned request stays in flight in the kernel
+        let mut tsv = [0; 2];
+        assert_eq!(0, unsafe { libc::socketpair(libc::AF_UNIX, libc::SOCK_STREAM, 0, tsv.as_mut_ptr()) });
+        let tv = libc::timeval { tv_sec: 0, tv_usec: 20_000 };
+        let _ = oc::setsockopt(None, tsv[1], libc::SOL_SOCKET, libc::SO_RCVTIMEO, (&raw const tv).cast(), std::mem::size_of::<libc::timeval>() as libc::socklen_t);
+        let mut b = [0u8; 8];
+        oc::set_errno(0);
+        let t = Instant::now();
+        let r = oc::recv(None, tsv[1], b.as_mut_ptr().cast(), 8, 0);
+        let e = errno();
+        TIMED_OUT_CALLS.fetch_add(1, Ordering::SeqCst);
+        if r != -1 || (e != libc::ETIMEDOUT && e != libc::EAGAIN) || t.elapsed() < Duration::from_millis(19) {
+            log.lock().unwrap().push(format!("caller {id}: recv on an empty socket with a 20 ms timeout returned {r} errno {e} after {} ms, expected -1 ETIMEDOUT/EAGAIN after 20 ms", t.elapsed().as_millis()));
+        }
+    }
+    let problem = |s: String| { if std::env::var_os("VERBOSE_PANICS").is_some() { eprintln!("caller {id}: {s}"); } log.lock().unwrap().push(format!("caller {id}: {s}")) };
     for k in 0..ops {
         let tag = ((id as u64) << 32) | k as u64;
-        match rng.below(8) {
+        match if rng.chance(1, 16) { 8 } else { rng.below(8) } {
             0 | 1 => {
                 // unique block written at a unique offset, read back
                 let off = (k * 64) as libc::off_t;
@@ -89,6 +108,48 @@ fn caller(id: usize, ops: usize, seed: u64, dir: &str, log: &Mutex<Vec<String>>,
                 if r != -1 || e != libc::ENOTSOCK {
                     problem(format!("op {k} recv(regular file) returned {r} errno {e}, expected -1/ENOTSOCK"));
                 }
+            }
+            8 => {
+                // a finished call must leave nothing behind that ends the next one: send with a 300 ms send timeout completes at once,
+                // then a receive (no timeout of its own) waits 600 ms for its data
+                let tv = libc::timeval { tv_sec: 0, tv_usec: 300_000 };
+                let _ = oc::setsockopt(None, sv[0], libc::SOL_SOCKET, libc::SO_SNDTIMEO, (&raw const tv).cast(), std::mem::size_of::<libc::timeval>() as libc::socklen_t);
+                let msg: Vec<u8> = tag.to_le_bytes().to_vec();
+                oc::set_errno(0);
+                let ts = Instant::now();
+                let s = oc::send(None, sv[0], msg.as_ptr().cast(), 8, 0);
+                if s == -1 && errno() == libc::ETIMEDOUT {
+                    if std::env::var_os("VERBOSE_PANICS").is_some() {
+                        eprintln!("caller {id}: op {k} send timed out after {} us", ts.elapsed().as_micros());
+                    }
+                    // the loop thread was starved for 300 ms: nothing to judge, and this caller must not issue another call (see the timed-out-call scenario)
+                    STARVED.fetch_add(1, Ordering::SeqCst);
+                    done_ops.fetch_add(ops - k, Ordering::SeqCst);
+                    return;
+                }
+                let mut first = [0u8; 8];
+                let r0 = oc::recv(None, sv[1], first.as_mut_ptr().cast(), 8, 0);
+                let peer = sv[0];
+                let late = tag ^ 0x5555;
+                drop(std::thread::spawn(move || {
+                    std::thread::sleep(Duration::from_millis(600));
+                    unsafe { libc::write(peer, late.to_le_bytes().as_ptr().cast(), 8) }
+                }));
+                oc::set_errno(0);
+                let t = Instant::now();
+                let mut back = [0u8; 8];
+                let r = oc::recv(None, sv[1], back.as_mut_ptr().cast(), 8, 0);
+                let e = errno();
+                if s != 8 || r0 != 8 || first.to_vec() != msg {
+                    problem(format!("op {k} send/recv returned {s}/{r0}, payload {first:x?} expected {msg:x?}"));
+                } else if r != 8 || back != late.to_le_bytes() {
+                    problem(format!("op {k} recv whose data arrives after 600 ms returned {r} errno {e} after {} ms (expected its 8 bytes); the send before it had a 300 ms timeout and had completed", t.elapsed().as_millis()));
+                    // the abandoned request is still in flight and this caller's wait slot is taken: stop here
+                    done_ops.fetch_add(ops - k, Ordering::SeqCst);
+                    return;
+                }
+                let tv = libc::timeval { tv_sec: 0, tv_usec: 0 };
+                let _ = oc::setsockopt(None, sv[0], libc::SOL_SOCKET, libc::SO_SNDTIMEO, (&raw const tv).cast(), std::mem::size_of::<libc::timeval>() as libc::socklen_t);
             }
             6 => {
                 // negative completion compared with what the native call answers: mkdirat below /sys
@@ -147,9 +208,11 @@ fn c27(seed: u64, case: u64, out: &Out) {
     let mut rng = Rng::for_case(seed ^ 0xC27, case);
     let coroutines = *rng.pick(&[1usize, 2, 4, 8, 16, 32]);
     let forced = case % 4 == 1;
+    let timeout_first = case % 6 == 4;
     let threads = if case % 3 == 2 || forced { 1 } else { 0 };
     let ops = rng.usize(8, 40);
     out.begin(case, jobj! {"coroutine_callers" => coroutines, "plain_thread_callers" => threads, "ops_per_caller" => ops,
+        "first_call_of_caller_0" => if timeout_first {"recv on an empty socket with SO_RCVTIMEO = 20 ms (runs into its timeout)"} else {"ordinary"},
         "forced_schedule" => if forced {"the plain-thread caller is held for 80 ms between submitting one of its requests and registering for the completion (uring:after_submit pause hook)"} else {"none"}});
     let mut cfg = Config::single();
     let _ = cfg.set_max_size(coroutines + 8).set_hook(false);
@@ -167,7 +230,7 @@ fn c27(seed: u64, case: u64, out: &Out) {
     for c in 0..coroutines {
         let (log, dc, dops, dir) = (log.clone(), done_callers.clone(), done_ops.clone(), dir.clone());
         hs.push(EventLoops::submit_task(None, move |_| {
-            caller(c, ops, seed ^ case, &dir, &log, &dops);
+            caller(c, ops, seed ^ case, &dir, &log, &dops, timeout_first && c == 0);
             dc.fetch_add(1, Ordering::SeqCst);
             None
         }, None, None));
@@ -176,7 +239,7 @@ fn c27(seed: u64, case: u64, out: &Out) {
     for t in 0..threads {
         let (log, dc, dops, dir) = (log.clone(), done_callers.clone(), done_ops.clone(), dir.clone());
         ths.push(std::thread::spawn(move || {
-            caller(1000 + t, ops, seed ^ case, &dir, &log, &dops);
+            caller(1000 + t, ops, seed ^ case, &dir, &log, &dops, false);
             dc.fetch_add(1, Ordering::SeqCst);
         }));
     }
@@ -201,9 +264,9 @@ fn c27(seed: u64, case: u64, out: &Out) {
     let problems = log.lock().unwrap().clone();
     let paused = PAUSED.load(Ordering::SeqCst);
     let obs = jobj! {"callers_finished" => finished, "callers" => total, "ops_completed" => done_ops.load(Ordering::SeqCst), "ops_expected" => total * ops, "problems" => problems.len(),
-        "calls_held_in_submit_register_window" => paused, "wall_ms" => t0.elapsed().as_millis() as u64};
+        "calls_held_in_submit_register_window" => paused, "calls_that_ran_into_their_timeout" => TIMED_OUT_CALLS.load(Ordering::SeqCst), "callers_starved" => STARVED.load(Ordering::SeqCst), "wall_ms" => t0.elapsed().as_millis() as u64};
     let _ = std::fs::remove_dir_all(&dir);
-    let fp = format!("{coroutines}|{threads}|{ops}|{forced}");
+    let fp = format!("{coroutines}|{threads}|{ops}|{forced}|{timeout_first}");
     std::mem::forget(hs);
     std::mem::forget(ths);
     if let Some(p) = problems.first() {
@@ -212,6 +275,8 @@ fn c27(seed: u64, case: u64, out: &Out) {
     } else if finished < total {
         let ctx = if forced && paused > 0 { "completion-arrived-before-the-caller-registered" } else if threads > 0 { "with-plain-thread-caller" } else { "coroutine-callers" };
         out.end(case, Verdict::Violated, &format!("C27/completion-lost-call-never-returns/{ctx}"), true, &fp, obs, &format!("{} of {total} callers still blocked 5 s after the last completion anybody received", total - finished));
+    } else if STARVED.load(Ordering::SeqCst) > 0 {
+        out.end(case, Verdict::Inconclusive, "loop-thread-starved-past-a-300ms-send-timeout", false, &fp, obs, "");
     } else if forced && paused == 0 {
         out.end(case, Verdict::Inconclusive, "pause-hook-not-reached", false, &fp, obs, "");
     } else {
@@ -223,6 +288,8 @@ fn main() {
     let args = Args::parse();
     let out = Out::open(&args);
     wl_core::quiet_panics();
+    // the reason of an abort is part of the verdict: one line per panic
+    std::panic::set_hook(Box::new(|i| eprintln!("[panic] {}", i.to_string().replace('\n', " "))));
     let seed = args.u64("seed", 1);
     let (a, _) = case_range(&args, 1);
     match args.pos.first().map(String::as_str) {
